@@ -46,7 +46,7 @@ def shards(tier):
 def required_counters(tier):
     return {'judged:exact-pixel': 5000, 'judged:exact-range': 5000, 'judged:full-pixel': 500, 'judged:empty-pixel': 500, 'judged:mask-sum': 50,
             'judged:convergence': 200, 'lane:circle-mask': 10, 'lane:ellipse-mask': 10, 'lane:circle-window': 10, 'lane:ellipse-window': 10,
-            'lane:nice-circle': 5, 'lane:nice-ellipse': 5, 'big-circle-rows': 2000, 'exact-with-subpixels-1': 20, 'float32-scalar-centres': 20, 'masks-of-excluded-regions': 20, 'result-edited-then-requested-again': 20}
+            'lane:nice-circle': 5, 'lane:nice-ellipse': 5, 'big-circle-rows': 2000, 'big-ellipse-pixels': 100000, 'history-steps': 15, 'exact-with-subpixels-1': 20, 'float32-scalar-centres': 20, 'masks-of-excluded-regions': 20, 'result-edited-then-requested-again': 20}
 
 
 # ---------------------------------------------------------------------------
@@ -182,6 +182,12 @@ def generate(rng, tier, shard, nshards):
         if i % 200 == 57:
             # a disk whose mask is more than a thousand rows tall (judged in bulk: interior 1, exterior 0, outline pixels one by one)
             yield {'lane': 'big-circle', 'r': rng.uniform(300, 1000), 'cx': rng.uniform(-50, 50), 'cy': rng.uniform(-50, 50), 'rs': rs}
+            continue
+        if i % 200 == 157 or (tier == 'quick' and i % 200 == 107):
+            # an ellipse whose mask has well over 2**15 pixels, at a general orientation (judged in bulk + a sample of outline pixels)
+            a = rng.uniform(110, 400)
+            yield {'lane': 'big-ellipse', 'a': a, 'b': a / rng.uniform(1.2, 3.0), 'theta': rng.uniform(-10, 10), 'cx': rng.uniform(-50, 50), 'cy': rng.uniform(-50, 50),
+                   'rs': rs}
             continue
         if r < 0.14:
             yield {'lane': 'circle-mask', 'r': gen.logu(rng, 0.05, 30), 'cx': rng.uniform(-50, 50), 'cy': rng.uniform(-50, 50), 'rs': rs}
@@ -381,16 +387,91 @@ def run_big_circle(case, obs):
               f'circle r={r!r}: exact mask sums to {s!r}, analytic area {math.pi * r * r!r}', 'mask-sum')
 
 
+def run_big_ellipse(case, obs):
+    import astropy.units as u
+    from regions import PixCoord, EllipsePixelRegion
+    a, b, th, cx, cy = case['a'], case['b'], case['theta'], case['cx'], case['cy']
+    m = EllipsePixelRegion(PixCoord(cx, cy), 2 * a, 2 * b, th * u.rad).to_mask(mode='exact')
+    bb = m.bbox
+    data = np.asarray(m.data, dtype=float)
+    obs.count('big-ellipse-pixels', data.size)
+    xc = np.arange(bb.ixmin, bb.ixmax)[None, :] - cx
+    yc = np.arange(bb.iymin, bb.iymax)[:, None] - cy
+    c, s_ = math.cos(th), math.sin(th)
+    rho = np.hypot((xc * c + yc * s_) / a, (-xc * s_ + yc * c) / b)          # 1 on the outline; Lipschitz constant 1/b
+    lip = 0.70711 / b + 1e-9
+    inside, outside = rho < 1 - lip, rho > 1 + lip
+    bad_in = inside & (np.abs(data - 1.0) > 1e-12)
+    bad_out = outside & (data != 0.0)
+    what = f'ellipse a={a!r} b={b!r} theta={th!r} centre=({cx!r},{cy!r})'
+    if bad_in.any():
+        j, i = [int(v[0]) for v in np.nonzero(bad_in)]
+        obs.violation('fully-covered-pixel-not-1', f'{what}: pixel row {j} col {i} of the {data.shape} mask lies inside the ellipse but has exact value '
+                      f'{data[j, i]!r}; {int(bad_in.sum())} such pixels')
+    else:
+        obs.ok(int(inside.sum()), 'full-pixel')
+    if bad_out.any():
+        j, i = [int(v[0]) for v in np.nonzero(bad_out)]
+        obs.violation('uncovered-pixel-not-0', f'{what}: pixel row {j} col {i} lies outside the ellipse but has exact value {data[j, i]!r}; '
+                      f'{int(bad_out.sum())} such pixels')
+    else:
+        obs.ok(int(outside.sum()), 'empty-pixel')
+    edge = np.argwhere(~inside & ~outside)
+    nrng = np.random.default_rng(case['rs'])
+    pick = edge[nrng.choice(len(edge), min(len(edge), 500), replace=False)]
+    nbad = 0
+    for j, i in pick:
+        x0, y0 = bb.ixmin + i - 0.5 - cx, bb.iymin + j - 0.5 - cy
+        exp = ellipse_pixel_area(x0, y0, x0 + 1, y0 + 1, a, b, th)
+        v = data[j, i]
+        if not (math.isfinite(v) and abs(v - exp) <= 1e-8):
+            nbad += 1
+            if nbad == 1:
+                obs.violation('exact-value-wrong', f'{what}: pixel [{x0!r},{x0 + 1!r}]x[{y0!r},{y0 + 1!r}] exact value {v!r}, true overlap fraction {exp!r}')
+        else:
+            obs.ok(1, 'exact-pixel')
+    s = float(data.sum())
+    obs.check(abs(s - math.pi * a * b) <= len(edge) * 1e-8 + 1e-6, 'exact-mask-sum-not-analytic-area',
+              f'{what}: exact mask sums to {s!r}, analytic area {math.pi * a * b!r}', 'mask-sum')
+
+
+def stepped(case, reg, obs, angle=False):
+    """the region as an object with a past: built a small step away (position, sizes, orientation), its mask taken, then given
+    its parameters by assignment - what counts is what it holds now."""
+    if case['rs'] % 4 != 1:
+        return reg
+    import random
+    prng = random.Random(case['rs'])
+    final = {p: getattr(reg, p) for p in reg._params}
+    from regions import PixCoord
+    d = prng.choice([-1, 1]) * 10.0 ** prng.uniform(-7, -1)
+    start = dict(final)
+    start['center'] = PixCoord(float(final['center'].x) + d, float(final['center'].y) - 0.6 * d)
+    for p in final:
+        if p in ('radius', 'width', 'height') and prng.random() < 0.5:
+            start[p] = final[p] * (1 + 10.0 ** prng.uniform(-7, -2))
+        if p == 'angle' and prng.random() < 0.5:
+            start[p] = final[p] * (1 + 10.0 ** prng.uniform(-7, -2))
+    past = type(reg)(**start, meta=reg.meta)
+    past.to_mask(mode='exact')
+    for p in prng.sample(list(final), len(final)):
+        setattr(past, p, final[p])
+    obs.count('history-steps')
+    return past
+
+
 def run_case(case, obs):
     import astropy.units as u
     from regions import PixCoord, CirclePixelRegion, EllipsePixelRegion
     lane = case['lane']
     if lane == 'big-circle':
         return run_big_circle(case, obs)
+    if lane == 'big-ellipse':
+        return run_big_ellipse(case, obs)
     if lane in ('circle-mask', 'nice-circle'):
         r, cx, cy = case['r'], case['cx'], case['cy']
         cx, cy, ctor_c, meta = typed_centre(case, cx, cy, obs)
-        reg = CirclePixelRegion(ctor_c, r, meta=meta)
+        reg = stepped(case, CirclePixelRegion(ctor_c, r, meta=meta), obs)
         if case['rs'] % 3 == 0:
             # an earlier, equal request whose result the caller edited in place must not influence this one
             first = CirclePixelRegion(ctor_c, r).to_mask(mode='exact')
@@ -418,7 +499,7 @@ def run_case(case, obs):
         th = float(ang.to_value(u.rad))
         cx, cy = case['cx'], case['cy']
         cx, cy, ctor_c, meta = typed_centre(case, cx, cy, obs)
-        reg = EllipsePixelRegion(ctor_c, 2 * a, 2 * b, ang, meta=meta)
+        reg = stepped(case, EllipsePixelRegion(ctor_c, 2 * a, 2 * b, ang, meta=meta), obs)
         if case['rs'] % 3 == 0:
             first = EllipsePixelRegion(ctor_c, 2 * a, 2 * b, ang).to_mask(mode='exact')
             if np.asarray(first.data).flags.writeable:
